@@ -374,6 +374,8 @@ pub fn basis() -> Vec<String> {
 
 pub fn gen_stream(src: &mut Src, _i: usize) -> Case {
     let mut g = G::new(src.range(1, 20), src.range(1, 10)).with_raw(8);
+    g.xtwinops = true;
+    g.xtwinops_huge = true;
     g.w[gen::CAT_INERT] = 6;
     g.w[gen::CAT_SGR] = 8;
     let s = gen::input(src, &g, 30);
